@@ -18,13 +18,13 @@ theorem C19_saves_only_real_values_of_executed_nodes (c : Ctx) (s : St) (obs : L
     (below : List Frame) (v : Val) (executedHere : Bool) :
     nodePost c s obs d n below v executedHere =
       if executedHere && !v.isRecur && !v.isExc then
-        cbCall c .save n (storeIf (recSpawn s d n v) executedHere n v)
-          ((if v.isRecur then obs ++ [.spawn s.tasks.length (.recur n)] else obs) ++ [.save n v])
+        cbCall c .save n (storeIf (recSpawn c.P s d n v) executedHere n v)
+          ((if recSpawns c.P s n v then obs ++ [.spawn s.tasks.length (.recur n)] else obs) ++ [.save n v])
           (fun j => .node d n false (.cbSave j) :: below)
           (fun s obs => nodeFinish c s obs d n below) (fun e s obs => nodeCbRaise c s obs d n below e)
       else
-        retTo c (nodeFinally c.P (storeIf (recSpawn s d n v) executedHere n v) d n (!v.isRecur))
-          (if v.isRecur then obs ++ [.spawn s.tasks.length (.recur n)] else obs) below .none := by
+        retTo c (nodeFinally c.P (storeIf (recSpawn c.P s d n v) executedHere n v) d n (!v.isRecur))
+          (if recSpawns c.P s n v then obs ++ [.spawn s.tasks.length (.recur n)] else obs) below .none := by
   simp [nodePost]
 
 /-- a task that merely waited for the node (late duplicate request) neither stores nor saves anything -/
@@ -47,7 +47,7 @@ theorem C19_no_marker_or_failure_saved (c : Ctx) (s : St) (obs : List Obs) (d : 
   have hcond : (e && !v.isRecur && !v.isExc) = false := by
     rcases hv with h1 | h1 <;> simp [h1]
   simp only [nodePost, hcond, Bool.false_eq_true, if_false] at h
-  rcases retTo_obs c _ (if v.isRecur = true then obs ++ [.spawn s.tasks.length (.recur n)] else obs) below .none
+  rcases retTo_obs c _ (if recSpawns c.P s n v = true then obs ++ [.spawn s.tasks.length (.recur n)] else obs) below .none
     with h2 | h2
   · rw [h2] at h
     split at h
